@@ -191,29 +191,34 @@ impl JSON {
                     if is_string {
                         key_value_pair = [key_value_pair, char.to_string()].join(SYMBOL.empty_string);
 
-                        // read till non escaped '"'
+                        // read till non escaped '"' (the quotation mark byte never occurs inside
+                        // a multi-byte utf-8 sequence, so the value is read in whole pieces)
                         let mut not_end_of_string_property_value = true;
                         while not_end_of_string_property_value {
 
-                            char_buffer = vec![bytes_to_read];
-                            let boxed_read = cursor.read_exact(&mut char_buffer);
+                            buf = vec![];
+                            let boxed_read = cursor.read_until(b'\"', &mut buf);
                             if boxed_read.is_err() {
                                 let error = boxed_read.err().unwrap().to_string();
                                 let message = format!("error at byte {} of {} bytes, message: {} ", bytes_read, total_bytes, error);
                                 return Err(message);
                             }
-                            boxed_read.unwrap();
-                            bytes_read = bytes_read + bytes_to_read as i128;
-                            let boxed_parse = String::from_utf8(char_buffer);
+                            let length = boxed_read.unwrap();
+                            if length == 0 || *buf.last().unwrap() != b'\"' {
+                                let error = "failed to fill whole buffer";
+                                let message = format!("error at byte {} of {} bytes, message: {} ", bytes_read, total_bytes, error);
+                                return Err(message);
+                            }
+                            bytes_read = bytes_read + length as i128;
+                            let boxed_parse = String::from_utf8(buf);
                             if boxed_parse.is_err() {
                                 let error = boxed_parse.err().unwrap().to_string();
                                 let message = format!("error at byte {} of {} bytes, message: {} ", bytes_read, total_bytes, error);
                                 return Err(message);
                             }
-                            let _char = boxed_parse.unwrap();
-                            let last_char_in_buffer = key_value_pair.chars().last().unwrap().to_string();
-                            not_end_of_string_property_value = _char != "\"" && last_char_in_buffer != "\\";
-                            key_value_pair = [key_value_pair, _char].join(SYMBOL.empty_string);
+                            let piece = boxed_parse.unwrap();
+                            not_end_of_string_property_value = piece.ends_with("\\\"");
+                            key_value_pair = [key_value_pair, piece].join(SYMBOL.empty_string);
                         }
 
 
